@@ -86,6 +86,10 @@ struct Case {
     /// raised by the transport at the moment their first bytes reach the server's (so far unused)
     /// connection: the connection's task finds the request and the signal on the same wake-up
     start_with_signal: bool,
+    /// this many brand-new connections are handed to the listener in the very step in which the
+    /// signal fires (a listener that stays ready): the signal must still be noticed before the
+    /// backlog is drained
+    backlog: usize,
 }
 
 fn steps_of(shape: Shape) -> usize {
@@ -135,6 +139,9 @@ fn body(c: &Case, ch: &Chooser) -> Outcome {
         let (err_tx, err_rx) = mpsc::unbounded_channel::<std::io::Error>();
         let mut errs_left = c.accept_errs;
         let serve_done = Arc::new(AtomicBool::new(false));
+        let yield_count = Arc::new(std::sync::atomic::AtomicUsize::new(0));
+        let mut backlog_held: Vec<hyper_util::rt::TokioIo<vnet::NetIo>> = vec![];
+        let mut yielded_at_signal: Option<usize> = None;
         let open_cell_outer: Arc<Mutex<Option<usize>>> = Arc::new(Mutex::new(None));
         let serve_res: Arc<Mutex<Option<Result<(), String>>>> = Arc::new(Mutex::new(None));
         {
@@ -150,11 +157,13 @@ fn body(c: &Case, ch: &Chooser) -> Outcome {
             let initial_conns = c.conns;
             let on_accept = c.signal_on_accept;
             let mut yielded = 0usize;
+            let yc = yield_count.clone();
             use tokio_stream::StreamExt;
             let switch = switch_outer.clone();
             let accept_errors = tokio_stream::wrappers::UnboundedReceiverStream::new(err_rx).map(Err::<vnet::NetIo, std::io::Error>);
             let incoming = vnet::switched(Box::pin(vnet::incoming(rx).merge(accept_errors)), switch).map(move |io| {
                 yielded += 1;
+                yc.fetch_add(1, Ordering::SeqCst);
                 if on_accept && yielded > initial_conns {
                     af1.0.store(true, Ordering::SeqCst);
                     if let Some(w) = af1.1.lock().unwrap().take() {
@@ -299,6 +308,16 @@ fn body(c: &Case, ch: &Chooser) -> Outcome {
                             pre_io = Some(io);
                         }
                     }
+                    if c.backlog > 0 {
+                        use tower_service::Service;
+                        let mut conn = vnet::connector(st.clone());
+                        for _ in 0..c.backlog {
+                            if let Ok(io) = conn.call(http::Uri::from_static("http://c13.test:1")).await {
+                                backlog_held.push(io);
+                            }
+                        }
+                        yielded_at_signal = Some(yield_count.load(Ordering::SeqCst));
+                    }
                     if let Some(tx) = signal.take() {
                         if c.end_incoming {
                             sig_keep = Some(tx); // the signal never fires; the listener ends instead
@@ -353,11 +372,19 @@ fn body(c: &Case, ch: &Chooser) -> Outcome {
                 }));
             }
             vnet::settle().await;
+            if !backlog_held.is_empty() {
+                // the clients of the backlog give up: whatever was accepted closes
+                backlog_held.clear();
+                vnet::settle().await;
+            }
             let done_now = serve_done.load(Ordering::SeqCst);
             serve_states.push((format!("{ev:?}"), done_now));
             if done_now && open_at_resolution.is_none() {
                 open_at_resolution = *open_cell_outer.lock().unwrap();
             }
+        }
+        if let Some(before) = yielded_at_signal {
+            log.push(format!("BacklogAccepted({})", yield_count.load(Ordering::SeqCst) - before));
         }
         // everything scripted has happened: let the system finish
         drop(sig_keep);
@@ -433,6 +460,15 @@ fn body(c: &Case, ch: &Chooser) -> Outcome {
             _ => {}
         }
     }
+    // 1b. a listener that stays ready must not starve the signal: of K connections handed over in
+    //     the step of the signal a fair accept loop takes each one with probability 1/2 before it
+    //     looks at the signal (all K: 2^-K); a loop that prefers the listener takes them all
+    if c.backlog > 0 {
+        if log.iter().any(|e| *e == format!("BacklogAccepted({})", c.backlog)) {
+            o.violate("signal-starved-by-accept-backlog", format!("all {} connections that were waiting at the listener when the signal fired were accepted before the signal was noticed: a listener that stays ready postpones shutdown for ever", c.backlog));
+        }
+        o.nontrivial = true;
+    }
     // 2. the serve future resolves only after every accepted call has completed, and does resolve
     let mut done_steps: Vec<usize> = vec![0; c.calls.len()];
     let mut started: Vec<bool> = vec![false; c.calls.len()];
@@ -503,59 +539,65 @@ fn cases(tier: Tier) -> Vec<Case> {
     // idle-connection variant)
     for conns in [0usize, 1] {
         for seed in 0..8 {
-            out.push(Case { calls: vec![], conns, chop: 0, seed, offer_after: true, same_step: true, signal_on_accept: false, end_incoming: false, keep_clients: false, max_age_ms: None, accept_errs: 0, start_with_signal: false });
+            out.push(Case { calls: vec![], conns, chop: 0, seed, offer_after: true, same_step: true, signal_on_accept: false, end_incoming: false, keep_clients: false, max_age_ms: None, accept_errs: 0, start_with_signal: false, backlog: 0 });
         }
-        out.push(Case { calls: vec![], conns, chop: 0, seed: 0, offer_after: true, same_step: false, signal_on_accept: false, end_incoming: false, keep_clients: false, max_age_ms: None, accept_errs: 0, start_with_signal: false });
+        out.push(Case { calls: vec![], conns, chop: 0, seed: 0, offer_after: true, same_step: false, signal_on_accept: false, end_incoming: false, keep_clients: false, max_age_ms: None, accept_errs: 0, start_with_signal: false, backlog: 0 });
         for chop in [0usize, 2] {
-            out.push(Case { calls: vec![], conns, chop, seed: 0, offer_after: true, same_step: true, signal_on_accept: true, end_incoming: false, keep_clients: false, max_age_ms: None, accept_errs: 0, start_with_signal: false });
+            out.push(Case { calls: vec![], conns, chop, seed: 0, offer_after: true, same_step: true, signal_on_accept: true, end_incoming: false, keep_clients: false, max_age_ms: None, accept_errs: 0, start_with_signal: false, backlog: 0 });
         }
     }
     // the first request of an idle connection arrives together with the signal
     for seed in 0..6 {
         for shape in [Shape::Unary, Shape::ServerStream] {
             for chop in [0usize, 2] {
-                out.push(Case { calls: vec![(shape, 0)], conns: 1, chop, seed, offer_after: false, same_step: false, signal_on_accept: false, end_incoming: false, keep_clients: false, max_age_ms: None, accept_errs: 0, start_with_signal: true });
+                out.push(Case { calls: vec![(shape, 0)], conns: 1, chop, seed, offer_after: false, same_step: false, signal_on_accept: false, end_incoming: false, keep_clients: false, max_age_ms: None, accept_errs: 0, start_with_signal: true, backlog: 0 });
             }
         }
-        out.push(Case { calls: vec![(Shape::Unary, 0), (Shape::ServerStream, 1)], conns: 2, chop: 0, seed, offer_after: false, same_step: false, signal_on_accept: false, end_incoming: false, keep_clients: false, max_age_ms: None, accept_errs: 0, start_with_signal: true });
+        out.push(Case { calls: vec![(Shape::Unary, 0), (Shape::ServerStream, 1)], conns: 2, chop: 0, seed, offer_after: false, same_step: false, signal_on_accept: false, end_incoming: false, keep_clients: false, max_age_ms: None, accept_errs: 0, start_with_signal: true, backlog: 0 });
     }
     // the listener reports accept errors (descriptor exhaustion, aborted handshakes) around the signal
     for seed in 0..4 {
         for accept_errs in [1usize, 2] {
-            out.push(Case { calls: vec![], conns: 0, chop: 0, seed, offer_after: true, same_step: false, signal_on_accept: false, end_incoming: false, keep_clients: false, max_age_ms: None, accept_errs, start_with_signal: false });
-            out.push(Case { calls: vec![(Shape::Unary, 0)], conns: 1, chop: 0, seed, offer_after: true, same_step: false, signal_on_accept: false, end_incoming: false, keep_clients: false, max_age_ms: None, accept_errs, start_with_signal: false });
+            out.push(Case { calls: vec![], conns: 0, chop: 0, seed, offer_after: true, same_step: false, signal_on_accept: false, end_incoming: false, keep_clients: false, max_age_ms: None, accept_errs, start_with_signal: false, backlog: 0 });
+            out.push(Case { calls: vec![(Shape::Unary, 0)], conns: 1, chop: 0, seed, offer_after: true, same_step: false, signal_on_accept: false, end_incoming: false, keep_clients: false, max_age_ms: None, accept_errs, start_with_signal: false, backlog: 0 });
         }
     }
     for s in [Shape::Unary, Shape::ServerStream] {
-        out.push(Case { calls: vec![(s, 0)], conns: 1, chop: 0, seed: 0, offer_after: true, same_step: true, signal_on_accept: true, end_incoming: false, keep_clients: false, max_age_ms: None, accept_errs: 0, start_with_signal: false });
+        out.push(Case { calls: vec![(s, 0)], conns: 1, chop: 0, seed: 0, offer_after: true, same_step: true, signal_on_accept: true, end_incoming: false, keep_clients: false, max_age_ms: None, accept_errs: 0, start_with_signal: false, backlog: 0 });
         // the listener ends while calls are in flight
-        out.push(Case { calls: vec![(s, 0)], conns: 1, chop: 0, seed: 0, offer_after: false, same_step: false, signal_on_accept: false, end_incoming: true, keep_clients: false, max_age_ms: None, accept_errs: 0, start_with_signal: false });
-        out.push(Case { calls: vec![(s, 0), (Shape::Unary, 1)], conns: 2, chop: 2, seed: 0, offer_after: false, same_step: false, signal_on_accept: false, end_incoming: true, keep_clients: false, max_age_ms: None, accept_errs: 0, start_with_signal: false });
+        out.push(Case { calls: vec![(s, 0)], conns: 1, chop: 0, seed: 0, offer_after: false, same_step: false, signal_on_accept: false, end_incoming: true, keep_clients: false, max_age_ms: None, accept_errs: 0, start_with_signal: false, backlog: 0 });
+        out.push(Case { calls: vec![(s, 0), (Shape::Unary, 1)], conns: 2, chop: 2, seed: 0, offer_after: false, same_step: false, signal_on_accept: false, end_incoming: true, keep_clients: false, max_age_ms: None, accept_errs: 0, start_with_signal: false, backlog: 0 });
         // max_connection_age elapsing before / after the signal
         for age in [2u64, 5] {
-            out.push(Case { calls: vec![(s, 0)], conns: 1, chop: 0, seed: 1, offer_after: false, same_step: false, signal_on_accept: false, end_incoming: false, keep_clients: false, max_age_ms: Some(age), accept_errs: 0, start_with_signal: false });
+            out.push(Case { calls: vec![(s, 0)], conns: 1, chop: 0, seed: 1, offer_after: false, same_step: false, signal_on_accept: false, end_incoming: false, keep_clients: false, max_age_ms: Some(age), accept_errs: 0, start_with_signal: false, backlog: 0 });
         }
     }
     // clients that keep their idle channels: the server must close the connections itself
     for calls in [vec![(Shape::Unary, 0)], vec![(Shape::ServerStream, 0), (Shape::Unary, 1)], vec![]] {
         let conns = calls.iter().map(|(_, c)| c + 1).max().unwrap_or(1);
-        out.push(Case { calls, conns, chop: 0, seed: 0, offer_after: false, same_step: false, signal_on_accept: false, end_incoming: false, keep_clients: true, max_age_ms: None, accept_errs: 0, start_with_signal: false });
+        out.push(Case { calls, conns, chop: 0, seed: 0, offer_after: false, same_step: false, signal_on_accept: false, end_incoming: false, keep_clients: true, max_age_ms: None, accept_errs: 0, start_with_signal: false, backlog: 0 });
     }
-    out.push(Case { calls: vec![(Shape::Unary, 0), (Shape::ServerStream, 0)], conns: 1, chop: 0, seed: 1, offer_after: false, same_step: false, signal_on_accept: false, end_incoming: false, keep_clients: false, max_age_ms: Some(2), accept_errs: 0, start_with_signal: false });
+    out.push(Case { calls: vec![(Shape::Unary, 0), (Shape::ServerStream, 0)], conns: 1, chop: 0, seed: 1, offer_after: false, same_step: false, signal_on_accept: false, end_incoming: false, keep_clients: false, max_age_ms: Some(2), accept_errs: 0, start_with_signal: false, backlog: 0 });
     for (i, (calls, conns)) in call_sets.iter().enumerate() {
         let chops: Vec<usize> = if tier == Tier::Thorough { vec![0, 2, 3] } else { vec![[0, 2, 3][i % 3]] };
         for chop in chops {
-            out.push(Case { calls: calls.clone(), conns: *conns, chop, seed: 0, offer_after: true, same_step: false, signal_on_accept: false, end_incoming: false, keep_clients: false, max_age_ms: None, accept_errs: 0, start_with_signal: false });
+            out.push(Case { calls: calls.clone(), conns: *conns, chop, seed: 0, offer_after: true, same_step: false, signal_on_accept: false, end_incoming: false, keep_clients: false, max_age_ms: None, accept_errs: 0, start_with_signal: false, backlog: 0 });
             if calls.len() == 1 || tier == Tier::Thorough {
                 for seed in 0..4 {
-                    out.push(Case { calls: calls.clone(), conns: *conns, chop, seed, offer_after: true, same_step: true, signal_on_accept: false, end_incoming: false, keep_clients: false, max_age_ms: None, accept_errs: 0, start_with_signal: false });
+                    out.push(Case { calls: calls.clone(), conns: *conns, chop, seed, offer_after: true, same_step: true, signal_on_accept: false, end_incoming: false, keep_clients: false, max_age_ms: None, accept_errs: 0, start_with_signal: false, backlog: 0 });
                 }
             }
         }
         if tier == Tier::Thorough && calls.len() <= 2 {
             for age in [2u64, 6] {
-                out.push(Case { calls: calls.clone(), conns: *conns, chop: 0, seed: 1, offer_after: false, same_step: false, signal_on_accept: false, end_incoming: false, keep_clients: false, max_age_ms: Some(age), accept_errs: 0, start_with_signal: false });
+                out.push(Case { calls: calls.clone(), conns: *conns, chop: 0, seed: 1, offer_after: false, same_step: false, signal_on_accept: false, end_incoming: false, keep_clients: false, max_age_ms: Some(age), accept_errs: 0, start_with_signal: false, backlog: 0 });
             }
+        }
+    }
+    // a backlog of 40 connections at the listener when the signal fires
+    for seed in 0..4 {
+        for (calls, conns) in [(vec![], 0usize), (vec![(Shape::Unary, 0usize)], 1)] {
+            out.push(Case { calls, conns, chop: 0, seed, offer_after: false, same_step: false, signal_on_accept: false, end_incoming: false, keep_clients: false, max_age_ms: None, accept_errs: 0, start_with_signal: false, backlog: 40 });
         }
     }
     out
@@ -565,9 +607,9 @@ pub fn property(tier: Tier) -> Property {
     let sec = Section::new(
         "shutdown-schedules",
         Config { hang_secs: 60, ..Default::default() },
-        "cases: 1..2 (thorough 3) concurrent calls (unary: 1 gated handler step; server-streaming: message, message, end = 3 gated steps) on 1..2 connections x pipe fragmentation pattern x {new connection offered after the signal has settled | in the same step as the signal under 4 RNG seeds} ; the listener's incoming stream ending instead of the signal firing; max_connection_age elapsing before/after the signal; the listener reporting 1..2 accept errors at any point before the new connection is offered; calls started in the very step in which the signal fires, the signal being raised by the transport at the moment their first bytes reach the server's so far unused connection (the connection's task finds request and signal on one wake-up; such a call is in flight: it may be served or refused with UNAVAILABLE, not dropped); environment: the explorer enumerates EVERY interleaving of {start call k, release next handler step of call k, fire the shutdown signal, offer a new connection, report an accept error} consistent with causality (choices cost nothing), each event followed by quiescence in virtual time, on the real Server::serve_with_incoming_shutdown over in-memory pipes; RefShutdown: every call whose handler was invoked ends with its full outcome; no call hangs; the serve future is unresolved while an accepted call has steps outstanding (and before any signal), resolves after the last one finishes and the clients are gone, never with Err; a connection offered after signal+quiescence never reaches a handler and does not hang once serving ended. Non-trivial = the signal landed strictly between a call's start and its last handler step.",
+        "cases: 1..2 (thorough 3) concurrent calls (unary: 1 gated handler step; server-streaming: message, message, end = 3 gated steps) on 1..2 connections x pipe fragmentation pattern x {new connection offered after the signal has settled | in the same step as the signal under 4 RNG seeds} ; the listener's incoming stream ending instead of the signal firing; max_connection_age elapsing before/after the signal; the listener reporting 1..2 accept errors at any point before the new connection is offered; a backlog of 40 new connections handed to the listener in the step of the signal (the signal must be noticed before the backlog is drained; 4 RNG seeds); calls started in the very step in which the signal fires, the signal being raised by the transport at the moment their first bytes reach the server's so far unused connection (the connection's task finds request and signal on one wake-up; such a call is in flight: it may be served or refused with UNAVAILABLE, not dropped); environment: the explorer enumerates EVERY interleaving of {start call k, release next handler step of call k, fire the shutdown signal, offer a new connection, report an accept error} consistent with causality (choices cost nothing), each event followed by quiescence in virtual time, on the real Server::serve_with_incoming_shutdown over in-memory pipes; RefShutdown: every call whose handler was invoked ends with its full outcome; no call hangs; the serve future is unresolved while an accepted call has steps outstanding (and before any signal), resolves after the last one finishes and the clients are gone, never with Err; a connection offered after signal+quiescence never reaches a handler and does not hang once serving ended. Non-trivial = the signal landed strictly between a call's start and its last handler step.",
         cases(tier),
-        |c: &Case| format!("calls={:?} conns={} chop={} seed={} offer_after={} same_step={} signal_on_accept={} end_incoming={} keep_clients={} max_age={:?} accept_errs={} start_with_signal={}", c.calls, c.conns, c.chop, c.seed, c.offer_after, c.same_step, c.signal_on_accept, c.end_incoming, c.keep_clients, c.max_age_ms, c.accept_errs, c.start_with_signal),
+        |c: &Case| format!("calls={:?} conns={} chop={} seed={} offer_after={} same_step={} signal_on_accept={} end_incoming={} keep_clients={} max_age={:?} accept_errs={} start_with_signal={} backlog={}", c.calls, c.conns, c.chop, c.seed, c.offer_after, c.same_step, c.signal_on_accept, c.end_incoming, c.keep_clients, c.max_age_ms, c.accept_errs, c.start_with_signal, c.backlog),
         body,
     )
     .mins(100, 10, 20);
